@@ -105,7 +105,7 @@ def _prefill(inp, fs, n, base, commit_meta):
     return ents
 
 
-@obligation('JR3', props=('C06', 'C09'), quick=[dict(n=1), dict(n=2), dict(n=3), dict(n=4)], thorough=[dict(n=1), dict(n=2), dict(n=3), dict(n=4), dict(n=5), dict(n=6)], stubs=_STUBS,
+@obligation('JR3', props=('C06', 'C09', 'C10'), quick=[dict(n=1), dict(n=2), dict(n=3), dict(n=4)], thorough=[dict(n=1), dict(n=2), dict(n=3), dict(n=4), dict(n=5), dict(n=6)], stubs=_STUBS,
             bounds='journal of n<=6 entries starting at index 1..3, dump taken at any journal position (or below / above the journal), symbolic terms; the dump agrees or disagrees with the journal head')
 def JR3(inp, n):
     """start-up reconciliation (journal + dump): after the first-tick load no journaled entry above the dump position is lost,
@@ -127,9 +127,11 @@ def JR3(inp, n):
         k = idx - base
         if 0 <= k < n:
             inp.assume(Eq(t, ents[k][2]))            # same index => same term (log matching between journal and dump)
-    o, tr = _node(inp, so.Clock(now))
+    dyn = inp.flag('dynamic')
+    o, tr = _node(inp, so.Clock(now), dynamicMembershipChange=dyn)
     pre_log = so.log_of(o)
-    image = snp.Token(({}, (so.NOOP, d, dt1), (so.NOOP, d - 1, dt0), set([Node('a'), Node('b'), Node('c')])))
+    # the dump's member set holds a node the constructor list does not (added and compacted away before the restart)
+    image = snp.Token(({}, (so.NOOP, d, dt1), (so.NOOP, d - 1, dt0), set([Node('a'), Node('b'), Node('c'), Node('x')])))
     get(o, 'serializer')._Serializer__inMemorySerializedData = image
     _, exc = guard(getattr(o, so.P + 'loadDumpFile'), False)
     q = so.post_state(o)
@@ -139,8 +141,10 @@ def JR3(inp, n):
     cl['journaled_entries_above_dump_kept'] = And([so.has_entry(q.log, e[1], e[2]) for e in ents if e[1] > d] or [True])
     cl['log_holds_dump_entries'] = And(so.has_entry(q.log, d - 1, dt0), so.has_entry(q.log, d, dt1))
     cl['log_contiguous'] = And([Eq(q.log[k][1], q.log[0][1] + k) for k in range(len(q.log))])
+    # C10: the member set is restored from the snapshot - also when the journal matches the dump and is kept as it is
+    cl['member_set_restored_from_dump'] = set(x.id for x in o.otherNodes) == ({'b', 'c', 'x'} if dyn else {'b', 'c'})
     head_agrees = (d - 1 == base)
-    return Res(cl, nontrivial=True, obs=lambda: dict(base=base, n=n, dump_at=d, post_log=show(q.log), applied=show(q.applied), exc=show(exc)),
+    return Res(cl, nontrivial=True, obs=lambda: dict(base=base, n=n, dump_at=d, members=sorted(x.id for x in o.otherNodes), post_log=show(q.log), applied=show(q.applied), exc=show(exc)),
                vars=dict(head_agrees=head_agrees, d=d, base=base, last=last))
 
 
